@@ -34,6 +34,72 @@ fn other_val(r: &mut Rng, ty: Ty, nullable: bool) -> DataValue {
     key_val(r, ty, false)
 }
 
+/// A constant of one of the types SQL text can give a key bound: INT, DECIMAL, BIGINT (cast or a
+/// literal beyond 32 bits), SMALLINT, the untyped NULL, a string literal.
+fn mixed_lit(r: &mut Rng, n: i64) -> (String, &'static str) {
+    match r.below(16) {
+        0..=2 => (format!("{n}"), "int"),
+        3..=7 => (format!("{}.{}", n, *r.pick(&["5", "5", "0", "25"])), "decimal"),
+        8 | 9 => (format!("cast({n} as bigint)"), "bigint"),
+        10 => ((*r.pick(&["3000000000", "-3000000000", "4294967299"])).to_string(), "bigint"),
+        11 => (format!("cast({} as smallint)", n.clamp(-30000, 30000)), "smallint"),
+        12 | 13 => ("null".to_string(), "null"),
+        _ => (format!("'{n}'"), "string"),
+    }
+}
+
+/// Key-range statements whose bounds mix constant types (kind "X"), all with the projection `proj`
+/// (which holds the key); the check filters the result of `select proj from t` (kind "XU").
+fn mixed_queries(r: &mut Rng, key: usize, proj: &[usize], used: &[String], small: bool, queries: &mut Vec<Query>) {
+    let sel = proj.iter().map(|c| colname(*c)).collect::<Vec<_>>().join(", ");
+    let kpos = proj.iter().position(|c| *c == key).unwrap() as i64;
+    let k = colname(key);
+    let near = |r: &mut Rng| -> i64 {
+        let base: Vec<i64> = used.iter().filter_map(|u| u.split(':').nth(1).and_then(|x| x.parse::<i64>().ok())).filter(|x| x.abs() < 100000).collect();
+        if !base.is_empty() && r.chance(2, 3) {
+            *r.pick(&base) + r.range(-1, 1)
+        } else if small {
+            r.range(-1, 7)
+        } else {
+            r.range(-2, 32)
+        }
+    };
+    for i in 0..4 {
+        let (a, b) = { let x = near(r); let y = near(r); if x <= y { (x, y) } else { (y, x) } };
+        let (mut la, mut ta) = mixed_lit(r, a);
+        let (mut lb, mut tb) = mixed_lit(r, b);
+        // most two-sided ranges have exactly one INT bound (the other atom alone is not a pushed range)
+        if r.chance(1, 2) {
+            if r.chance(1, 2) { la = format!("{a}"); ta = "int"; } else { lb = format!("{b}"); tb = "int"; }
+        }
+        let lop = *r.pick(&[">=", ">"]);
+        let hop = *r.pick(&["<=", "<"]);
+        let flip = |op: &str| match op { ">=" => "<=", ">" => "<", "<=" => ">=", _ => ">" };
+        let lo_atom = |r: &mut Rng| if r.chance(1, 4) { format!("{la} {} {k}", flip(lop)) } else { format!("{k} {lop} {la}") };
+        let hi_atom = |r: &mut Rng| if r.chance(1, 4) { format!("{lb} {} {k}", flip(hop)) } else { format!("{k} {hop} {lb}") };
+        let (wsql, shape) = match r.below(8) {
+            0 => (lo_atom(r), format!("lower {ta}")),
+            1 => (hi_atom(r), format!("upper {tb}")),
+            2 => (format!("{k} = {la}"), format!("eq {ta}")),
+            3 | 4 => (format!("{k} between {la} and {lb}"), format!("between {ta}/{tb}")),
+            5 => (format!("{} and {}", hi_atom(r), lo_atom(r)), format!("two-sided {ta}/{tb}")),
+            _ => (format!("{} and {}", lo_atom(r), hi_atom(r)), format!("two-sided {ta}/{tb}")),
+        };
+        let _ = shape;
+        let ordered = r.chance(1, 3);
+        let ob = if ordered { format!(" order by {k}") } else { String::new() };
+        queries.push(Query {
+            qid: 100 + i, kind: "X", sql: format!("select {sel} from t where {wsql}{ob}"),
+            nkeys: 0, desc: if ordered { vec![false] } else { vec![] }, keypos: vec![kpos],
+            limit: None, offset: None, wh: vec![], whpos: vec![],
+        });
+    }
+    queries.push(Query {
+        qid: 100, kind: "XU", sql: format!("select {sel} from t"),
+        nkeys: 0, desc: vec![], keypos: vec![kpos], limit: None, offset: None, wh: vec![], whpos: vec![],
+    });
+}
+
 fn gen_case(r: &mut Rng, id: usize) -> Case {
     let ncols = r.range(1, 4) as usize;
     let pkdecl = match r.below(20) {
@@ -202,6 +268,16 @@ fn gen_case(r: &mut Rng, id: usize) -> Case {
             qid, kind: "U", sql: format!("select {} from t", sel(&ucols)),
             nkeys: wh.len(), desc: vec![], keypos: vec![], limit: None, offset: None, wh: wh.clone(), whpos,
         });
+    }
+    // key ranges with bounds of mixed constant types (integer keys)
+    if matches!(kty, Ty::I32 | Ty::I64 | Ty::I16) {
+        let mut proj: Vec<usize> = vec![key];
+        for c in 0..ncols {
+            if c != key && r.chance(1, 3) {
+                if r.chance(1, 2) { proj.push(c) } else { proj.insert(0, c) }
+            }
+        }
+        mixed_queries(r, key, &proj, &used, small, &mut queries);
     }
     // storage-level scans: (cols, none) then (cols, range) pairs
     let mut scans = vec![];
